@@ -30,7 +30,7 @@ func verifQueryValue() string {
 	}
 	max := 3
 	if thorough() {
-		max = 5
+		max = 4
 	}
 	v := nondetBytes("value", max)
 	for _, b := range v {
